@@ -79,6 +79,13 @@ def h2_extra(oracle_names, counts, crashes=True):
             errs = [(nm, e) for nm, e in s.sess.errors() if not nm.startswith("app")]
             if errs:
                 fails.append({"case": {"seed": seed, "h2": d}, "what": f"task errors {errs}", "signature": "h2e2e:task-error"})
+        if "c01" in oracle_names:
+            for i in range(ctx.scale(3, 30, 10)):
+                d, f = E2.padded_upload(ctx.seed * 7477 + i)
+                n += 1
+                dist["h2_padded_uploads"] = dist.get("h2_padded_uploads", 0) + 1
+                for what, sig in f:
+                    fails.append({"case": d, "what": what, "signature": sig})
         return {"failures": fails, "count": n, "dist": dist}
 
     return extra
